@@ -99,6 +99,13 @@ func newDevice(ch, note int, out chan midi.Event, midiIn chan midi.Event) *devic
 	if midiIn != nil {
 		mi = midiIn
 	}
+	if freshDevices {
+		// the constructor itself is part of what is explored (devices built one after the other in one process, as the manager does)
+		d := device.NewDevice(in, config.DeviceConfig{ConfigFile: "c16", Config: cfg}, nil, nil, true, 6742, nil)
+		device.VerifSetIO(&d, out, make(chan os.Signal, 4))
+		device.VerifSetMidiIn(&d, mi)
+		return &d
+	}
 	// NewDevice pre-fills 2048 counters (0.5 ms): build one template per configuration and clone it per execution
 	tmpl, ok := tmplCache[k]
 	if !ok {
@@ -112,6 +119,9 @@ func newDevice(ch, note int, out chan midi.Event, midiIn chan midi.Event) *devic
 }
 
 var tmplCache = map[string]*device.Device{}
+
+// freshDevices: build every device with the real NewDevice instead of cloning a template (set per scenario)
+var freshDevices = false
 
 // fakeServer: with faults > 0 the environment may answer up to that many calls with an error (every placement is
 // explored: an explicit choice at each call while budget is left), or die for good (all later calls fail).
@@ -188,6 +198,7 @@ type scen struct {
 	stall         bool // the whole process is stalled (suspend, CPU starvation) for 6 s of virtual time at an arbitrary moment
 	noMatch       bool // the LED server knows no controller for this device
 	axisRest      bool // the script moves the bidirectional axis and ends with it at rest
+	sameNote      bool // both devices play the SAME channel and pitch (separate output channels tell them apart)
 	pace          int  // the feeder sleeps this many times before every event and before closing the stream (lets LED frames happen in between)
 	faults        int  // number of OpenRGB calls the environment may fail (every placement)
 }
@@ -206,6 +217,7 @@ func drain(out chan midi.Event, tag string) {
 }
 
 func (sc scen) run() {
+	freshDevices = sc.sameNote
 	if sc.rgb {
 		srv := &fakeServer{faults: sc.faults, noMatch: sc.noMatch}
 		for _, n := range []string{"Key: A", "Key: S", "Key: Escape", "Key: F2", "Key: Q"} {
@@ -238,7 +250,13 @@ func (sc scen) run() {
 				vsched.Out[midi.Event](mi).Send(midi.NoteEvent(midi.NoteOff, 0, 60, 0))
 			})
 		}
-		dev := newDevice(ch, note, out, mi)
+		o := out
+		if sc.sameNote && tag == "B" {
+			o = make(chan midi.Event, oc)
+			vsched.Name(o, "midiOutB")
+			drain(o, "outB")
+		}
+		dev := newDevice(ch, note, o, mi)
 		in := make(chan *input.InputEvent)
 		vsched.Name(in, "events"+tag)
 		vsched.Go("device"+tag, func() {
@@ -277,7 +295,9 @@ func (sc scen) run() {
 		})
 	}
 	start("A", 1, 60, sc.events)
-	if sc.two {
+	if sc.two && sc.sameNote {
+		start("B", 1, 60, other(sc.events))
+	} else if sc.two {
 		start("B", 2, 72, other(sc.events))
 	}
 }
@@ -401,6 +421,15 @@ func (sc scen) check(solo map[string][]string) func(x *vsched.Execution) []vsche
 		if solo != nil {
 			for tag, nib := range map[string]byte{"A": 0, "B": 1} {
 				got := outputs(x, nib)
+				if sc.sameNote { // same channel: told apart by the output channel they were given
+					got = nil
+					kind := map[string]string{"A": "out", "B": "outB"}[tag]
+					for _, o := range x.Obs {
+						if o.Kind == kind {
+							got = append(got, o.Val.(string))
+						}
+					}
+				}
 				if strings.Join(got, ";") != strings.Join(solo[tag], ";") {
 					vs = append(vs, vsched.Violation{"cross-talk", "device" + tag, fmt.Sprintf("device %s emitted %v next to another device, but %v when run alone", tag, got, solo[tag])})
 				}
@@ -440,6 +469,7 @@ func scenarios(tier string) []scen {
 	s = append(s, scen{name: "openrgb connected, the process stalls for 6 s at some point", events: two[:1], rgb: true, stall: true, pace: 1, dBound: -1},
 		scen{name: "no-openrgb, the process stalls for 6 s at some point", events: two[:1], stall: true, pace: 1, dBound: -1})
 	s = append(s, scen{name: "openrgb connected but no controller matches the device", events: two[:1], rgb: true, noMatch: true, pace: 1, dBound: -1})
+	s = append(s, scen{name: "two devices playing the same channel and pitch", events: []*input.InputEvent{key("KEY_A", 1), key("KEY_A", 0)}, two: true, sameNote: true, dBound: -1, noEarlyTimers: true})
 	// the 129-message panic burst through a slow (capacity 1) output, then the device goes away
 	s = append(s, scen{name: "no-openrgb, panic through a slow output, then disconnect", events: []*input.InputEvent{key("KEY_ESC", 1)}, dBound: -1})
 	// a bidirectional axis swung from one end stop to the other and back to rest through the slow output
@@ -537,7 +567,11 @@ func main() {
 			xb := vsched.Run(func() {
 				outc := make(chan midi.Event, 1)
 				drain(outc, "out")
-				dev := newDevice(2, 72, outc, nil)
+				bch, bnote := 2, 72
+				if sc.sameNote {
+					bch, bnote = 1, 60
+				}
+				dev := newDevice(bch, bnote, outc, nil)
 				in := make(chan *input.InputEvent)
 				vsched.Go("deviceB", func() { dev.ProcessEvents(in) })
 				vsched.Go("feederB", func() {
@@ -548,6 +582,9 @@ func main() {
 				})
 			}, nil, ropt)
 			solo["B"] = outputs(xb, 1)
+			if sc.sameNote {
+				solo["B"] = outputs(xb, 0)
+			}
 		}
 		outcomes := map[uint64]bool{}
 		b := *bound + sc.dBound
